@@ -196,6 +196,25 @@ pub fn order(depth: usize) -> Value {
             }
         }
     }
+    // the number of rows of a limited (sub)query when no column of it is needed: min(n, max(0, N - m))
+    for e in [Engine::Mem, Engine::Disk { block: 64, rowset: 1 }] {
+        let mut sqls: Vec<String> = vec!["create table lc(a int, b int)".into(), "insert into lc values (1,1),(2,2),(3,3),(4,4)".into(), "insert into lc values (5,5),(6,6),(7,7)".into()];
+        let q0 = sqls.len();
+        let mut wants: Vec<usize> = vec![];
+        for (l, o) in [(1usize, 0usize), (3, 2), (5, 0), (7, 0), (9, 3), (2, 6), (4, 7), (0, 0)] {
+            sqls.push(format!("select count(*) from (select * from lc limit {l} offset {o}) s"));
+            wants.push(l.min(7usize.saturating_sub(o)));
+        }
+        sqls.push("select count(*) from lc where exists (select * from lc limit 2)".into()); wants.push(7);
+        tried += wants.len() as u64;
+        let outs = match run(e, &sqls, &[]) { Ok(o) => o, Err(err) => return found_raw(tried, e, &sqls, &[], sqls.len() - 1, "the session to run".into(), err) };
+        for (j, w) in wants.iter().enumerate() {
+            match &outs[q0 + j] {
+                Ok(got) if *got == vec![vec![w.to_string()]] => {}
+                other => { if let Some(v) = found(tried, e, &sqls, &[], q0 + j, format!("[[{w}]]"), format!("{other:?}")) { return v; } }
+            }
+        }
+    }
     // LIMIT / OFFSET over a query with window functions (running aggregates over the input order): the rows returned belong
     // to the full result, and there are min(n, max(0, N - m)) of them
     for e in [Engine::Mem, Engine::Disk { block: 64, rowset: 1 }] {
@@ -1100,6 +1119,27 @@ pub fn ddl(depth: usize) -> Value {
             match &outs[i] {
                 Ok(got) if sorted(got.clone()) == want => {}
                 other => { if let Some(v) = found(tried, e, &sqls, &[4], i, format!("{} => {want:?}", if refused { "the INSERT was refused" } else { "the INSERT was acknowledged" }), format!("{other:?}")) { return v; } }
+            }
+        }
+    }
+    // a long catalog history (17 rounds of create / insert / drop between two tables that stay): the manifest rewritten by the
+    // first recovery has more than 32 entries, the second recovery replays it
+    {
+        let mut sqls: Vec<String> = vec!["create table keep(k int primary key, v int)".into(), "insert into keep values (1,10),(2,20)".into()];
+        for r in 0..17 { sqls.push("create table tmp(a int)".into()); sqls.push(format!("insert into tmp values ({r})")); sqls.push("drop table tmp".into()); }
+        sqls.push("create table other(k int primary key, v int)".into());
+        sqls.push("insert into other values (5,50)".into());
+        sqls.push("delete from keep where k = 1".into());
+        let q0 = sqls.len();
+        for _ in 0..3 { sqls.push("select k, v from keep".into()); sqls.push("select k, v from other".into()); }
+        let reopen = vec![q0 + 2, q0 + 4];
+        tried += 6;
+        let outs = match run(e, &sqls, &reopen) { Ok(o) => o, Err(err) => return found_raw(tried, e, &sqls, &reopen, sqls.len() - 1, "the session (17 create/insert/drop rounds, two reopen cycles) to run".into(), err) };
+        for i in 0..6 {
+            let want = if i % 2 == 0 { vec![vec!["2".to_string(), "20".to_string()]] } else { vec![vec!["5".to_string(), "50".to_string()]] };
+            match &outs[q0 + i] {
+                Ok(got) if *got == want => {}
+                other => { if let Some(v) = found(tried, e, &sqls, &reopen, q0 + i, format!("{want:?}"), format!("{other:?}")) { return v; } }
             }
         }
     }
